@@ -189,6 +189,15 @@ class SymSession(_PatchMixin):
     def claim_is(self, name, a, b):
         self.claims.append((name, z3.BoolVal(a is b)))
 
+    def claim_iff(self, name, concrete, cond):
+        """concrete (a bool the real code returned on this path) <=> cond"""
+        concrete = bool(concrete)
+        if isinstance(cond, (bool, np.bool_)):
+            self.claims.append((name, z3.BoolVal(bool(cond) == concrete)))
+        else:
+            t = core.bool_term(cond)
+            self.claims.append((name, t if concrete else z3.Not(t)))
+
     def observe(self, name, v):
         v = _arr(v)
         for i, x in enumerate(v.reshape(-1)):
@@ -310,6 +319,9 @@ class ConcSession(_PatchMixin):
     def claim_is(self, name, a, b):
         self.claims.append((name, a is b, None))
 
+    def claim_iff(self, name, concrete, cond):
+        self.claims.append((name, bool(concrete) == bool(cond), None))
+
     def observe(self, name, v):
         v = np.asarray(v)
         for i, x in enumerate(v.reshape(-1)):
@@ -378,11 +390,16 @@ def explore(ob, anti_all=False):
         core.activate(c)
         S = SymSession(c)
         ok = True
+        exc = None
         try:
             ob.body(S)
         except PathInfeasible:
             ok = False
             stats['infeasible'] += 1
+        except core.SymxError:
+            raise
+        except Exception as e:      # the code under test raised on this path
+            exc = (type(e).__name__, repr(e)[:300], traceback.format_exc()[-2500:])
         finally:
             S.undo_patches()
             core.activate(None)
@@ -392,7 +409,9 @@ def explore(ob, anti_all=False):
         stats['feas_unknown'] += c.feas_unknown
         if ok:
             stats['paths'] += 1
-            paths.append(PathResult(c, S, 'anti' if anti_all else 'std'))
+            pr = PathResult(c, S, 'anti' if anti_all else 'std')
+            pr.exc = exc
+            paths.append(pr)
     return paths, stats
 
 
@@ -454,7 +473,7 @@ def validate(ob, paths, seed, n):
         attempts += 1
         env = sample_env(ob, specs, rng)
         p, fe = match_path(paths, env)
-        if p is None:
+        if p is None or getattr(p, 'exc', None) is not None:
             continue
         try:
             S = run_concrete(ob, env)
@@ -618,6 +637,7 @@ def run_obligation(ob, seed=0, timeout_scale=1.0):
             res['errors'].append("no feasible path")
         seen_assump = set()
         sample_claims = []
+        batch_fail = 0
         for pi_, p in enumerate(all_paths):
             if len(res['violations']) >= 2:
                 res['notes'].append("stopped after 2 reproduced violations")
@@ -638,6 +658,28 @@ def run_obligation(ob, seed=0, timeout_scale=1.0):
                 continue
             if r == z3.sat:
                 res['vacuity_checked'] += 1
+            if getattr(p, 'exc', None) is not None:
+                # unexpected exception on a symbolic path: a violation iff the real
+                # float run raises too (otherwise the proxies are at fault)
+                env = {}
+                if r == z3.sat:
+                    env = derive_env(c, s.model())
+                cname = 'no_unexpected_exception:' + p.exc[0]
+                try:
+                    run_concrete(ob, env)
+                    res['errors'].append(f"path {pi_}: exception only in symbolic mode: {p.exc[1]}\n{p.exc[2]}")
+                except Discard:
+                    res['errors'].append(f"path {pi_}: symbolic exception, concrete inputs discarded: {p.exc[1]}\n{p.exc[2]}")
+                except Exception as e2:
+                    if type(e2).__name__ == p.exc[0]:
+                        res['violations'].append(dict(claim=cname, env=env, uf_tables={},
+                                                      discrepancy=None, failed=[cname],
+                                                      extra=dict(exception=repr(e2)[:300])))
+                        res['claims'].append(dict(name=cname, path=pi_, chart=p.chart, verdict='violated',
+                                                  s=0.0, engine='replay'))
+                    else:
+                        res['errors'].append(f"path {pi_}: symbolic {p.exc[1]} vs concrete {e2!r}\n{p.exc[2]}")
+                continue
             if not p.sess.claims:
                 res['errors'].append(f"path {pi_} made no claim")
             # fast path: groups of claims in one query each
@@ -649,13 +691,17 @@ def run_obligation(ob, seed=0, timeout_scale=1.0):
                     pre[name] = ('unsat', 0.0, 'simplify')
                 else:
                     todo.append((name, claim))
-            if len(todo) > 1 and ob.batch:
+            if len(todo) > 1 and ob.batch and batch_fail < 2:
                 for i0 in range(0, len(todo), ob.batch):
+                    if batch_fail >= 2:
+                        break
                     grp = todo[i0:i0 + ob.batch]
                     okb, secs, eng = solve.check_batch(cons, [cl for _, cl in grp],
                                                        ob.timeout_s * 1000 * timeout_scale)
                     res['queries'] += 1
                     res['solver_s'] += secs
+                    if not okb:
+                        batch_fail += 1
                     if okb:
                         for nm, _ in grp:
                             pre[nm] = ('unsat', round(secs / len(grp), 3), eng)
@@ -744,6 +790,9 @@ def replay_env(ob, env, tables, claim_name=None):
     except Discard as d:
         return dict(status='discarded', detail=str(d))
     except Exception as e:
+        if claim_name and claim_name.startswith('no_unexpected_exception:') and \
+                claim_name.split(':', 1)[1] == type(e).__name__:
+            return dict(status='reproduced', failed=[claim_name], discrepancy=None, detail=repr(e)[:300])
         return dict(status='exception', detail=repr(e), tb=traceback.format_exc()[-1500:])
     failed = [(n, d) for n, ok, d in S.claims if not ok]
     if not failed:
